@@ -422,6 +422,38 @@ def r_narrow(prog, R):
             r.viol(k, f.name, f.loc(c["ln"]), "%s is narrowed to %d bits%s without a dominating bound: larger values are silently truncated and the bytes do not parse back" % (
                 render(inner), 16 if mx == 0xFFFF else 8, " (masked)" if masked else ""))
     r.info["narrowing_sites"] = n
+    # truncating string copies inside the writer: the source length must have been compared with the destination size, otherwise the
+    # writer silently serialises a cut-off value
+    for f in sorted(prog.funcs.values(), key=lambda x: x.key):
+        if f.file not in (WRITE_C, NAME_C):
+            continue
+        mf = None
+        for b, i, c in f.calls_to("ares_strcpy"):
+            src = key(call_arg(c, 1))
+            k = "fn=%s ares_strcpy(%s) not truncating" % (f.name, src)
+            if mf is None:
+                mf = MustFacts(f, track_calls=False)
+            okc = False
+            for c3, p3 in mf.cond_facts_at(b, i):
+                op, l3, r3 = norm_cmp(c3, p3)
+                if r3 is None:
+                    continue
+                lt = render(l3) + " " + render(r3)
+                callsrc = []
+                for nd in list(walk(l3)) + list(walk(r3)):
+                    if nd.get("k") == "call":
+                        cn = nd
+                        if cn.get("ref"):
+                            x = f.call_by_id(cn["id"])
+                            cn = x[2] if x else cn
+                        if cn.get("callee") in ("ares_strlen", "strlen") and key(call_arg(cn, 0)) == src:
+                            callsrc.append(cn)
+                if callsrc and op in ("<", "<="):
+                    okc = True
+            if okc:
+                r.ok(k, f.loc(c["ln"]))
+            else:
+                r.viol(k, f.name, f.loc(c["ln"]), "%s copies %s with the truncating ares_strcpy without having compared its length with the destination size: an over-long value is serialised cut off, and the write still reports success" % (f.name, src))
 
 
 def _labels_bounded(prog):
